@@ -31,6 +31,9 @@ B = 'kronecker_factored_lattice_lib'
 
 
 def run(prog, res):
+  from ..rules import guards as _gsc
+  _gsc.check_self_clip_order(prog, res, [f for m in ['kronecker_factored_lattice_lib'] for f in prog.module(m).all_functions()])
+  res.floor('X5', 6)
   from ..rules import guards as _g
   for q in ('kronecker_factored_lattice_lib.evaluate_with_hypercube_interpolation',):
     _g.check_clip_paths(prog, res, prog.function(q))
